@@ -700,8 +700,27 @@ class _SubtypeDistanceVisitor(TypeVisitor[int | None]):
     def visit_any_type(self, supertype: AnyType) -> int:
         return self.any_distance
 
-    def visit_none_type(self, supertype: NoneType) -> None:
+    def _closest_union_member(self, supertype: ProperType) -> int | None:
+        """Distance to the closest member if the subtype is a union, otherwise None.
+
+        Args:
+            supertype: The supertype to calculate the distance to.
+
+        Returns:
+            The minimal distance to a union member or None if not connected.
+        """
+        if not isinstance(self.subtype, UnionType):
+            return None
+        distances = [self.graph.subtype_distance(supertype, elem) for elem in self.subtype.items]
+        valid_distances = [dist for dist in distances if dist is not None]
+        if valid_distances:
+            return min(valid_distances)
         return None
+
+    def visit_none_type(self, supertype: NoneType) -> int | None:
+        if isinstance(self.subtype, NoneType):
+            return 0
+        return self._closest_union_member(supertype)
 
     def visit_instance(self, supertype: Instance) -> int | None:
         """Calculate the distance between two instances.
@@ -720,6 +739,9 @@ class _SubtypeDistanceVisitor(TypeVisitor[int | None]):
         """
         if isinstance(self.subtype, Instance):
             if supertype.args and self.subtype.args:
+                if self.graph.get_shortest_path_length(supertype.type, self.subtype.type) is None:
+                    # E.g., list[int] and set[int]: the containers are unrelated.
+                    return None
                 distances = list(
                     map(self.graph.subtype_distance, supertype.args, self.subtype.args)
                 )
@@ -760,7 +782,7 @@ class _SubtypeDistanceVisitor(TypeVisitor[int | None]):
                 return None
             return sum(distances)  # type: ignore[arg-type]
 
-        return None
+        return self._closest_union_member(supertype)
 
     def visit_union_type(self, supertype: UnionType) -> int | None:
         """Calculate the distance between two union types.
